@@ -8,13 +8,16 @@ package keeper
 /*@
 alias CVA github.com/haqq-network/haqq/x/vesting/types.ClawbackVestingAccount
 alias LvDenom github.com/haqq-network/haqq/x/liquidvesting/types.Denom
-sort LvStore = (Array Str LvDenom)
-sort LvHas = (Array Str Bool)
-world lv_denoms LvStore
-world lv_has LvHas
-world lv_counter uint64
+alias VKeeper github.com/haqq-network/haqq/x/vesting/keeper.Keeper
+// world lv_denoms / lv_has / lv_counter: abstract view of the denom store, declared in /verif/specs/c11p_lv/71_denomstore.spec
+// together with the model of the raw KV calls made by CreateDenom.
 
-// ---- leaf store accessors: assumed contracts over the abstract store view
+// store invariant: every record sits under its own BaseDenom, has well-formed periods, and its EndTime (seconds) is not
+// before its last release event
+specfunc LvWellFormed(d LvDenom) bool = (forall k int :: 0 <= k && k < len(d.LockupPeriods) ==> d.LockupPeriods[k].Length >= 0 && cnonneg(d.LockupPeriods[k].Amount))
+            && time_unix(d.EndTime) >= T(time_unix(d.StartTime), d.LockupPeriods, len(d.LockupPeriods))
+
+// ---- leaf store accessors (KV read / write / delete + codec): assumed contracts over the abstract store view
 func (Keeper).GetDenom
     trusted
     ensures result.1 == lv_has[baseDenom] && (result.1 ==> result.0 == lv_denoms[baseDenom])
@@ -26,12 +29,47 @@ func (Keeper).DeleteDenom
     trusted
     modifies lv_has
     ensures lv_has == upd(old(lv_has), baseDenom, false)
-func (Keeper).CreateDenom
+func (Keeper).GetDenomCounter
     trusted
+    ensures result == lv_counter
+func (Keeper).SetDenomCounter
+    trusted
+    modifies lv_counter
+    ensures lv_counter == counter
+
+// C11: the record of a new liquid token starts at startTime, carries exactly the given periods and ends, IN SECONDS, at
+// startTime + the total length of the periods = the absolute time of its last release event; it is stored under a
+// name derived from the counter, which is advanced
+func (Keeper).CreateDenom
     modifies lv_denoms, lv_has, lv_counter
-    ensures result.1 == nil && result.0.StartTime == time_of(startTime, 0) && result.0.LockupPeriods == periods
-            && result.0.OriginalDenom == originalDenom && lv_counter == old(lv_counter) + 1
-            && lv_denoms == upd(old(lv_denoms), result.0.BaseDenom, result.0) && lv_has == upd(old(lv_has), result.0.BaseDenom, true)
+    ensures ok: result.1 == nil
+    ensures record: result.0.StartTime == time_of(startTime, 0) && result.0.LockupPeriods == periods && result.0.OriginalDenom == originalDenom
+    ensures start: time_unix(result.0.StartTime) == startTime
+    ensures end_seconds: time_unix(result.0.EndTime) == startTime + T(0, periods, len(periods))
+    ensures end_event: time_unix(result.0.EndTime) == T(time_unix(result.0.StartTime), result.0.LockupPeriods, len(result.0.LockupPeriods))
+    ensures name: result.0.BaseDenom == lv_basename(old(lv_counter)) && result.0.DisplayDenom == lv_displayname(old(lv_counter))
+    ensures counter: lv_counter == old(lv_counter) + 1
+    ensures stored: lv_denoms == upd(old(lv_denoms), result.0.BaseDenom, result.0) && lv_has == upd(old(lv_has), result.0.BaseDenom, true)
+    ensures well_formed: (forall k int :: 0 <= k && k < len(periods) ==> periods[k].Length >= 0 && cnonneg(periods[k].Amount)) ==> LvWellFormed(result.0)
+    use return TShift(startTime, periods, len(periods))
+
+// C11: a schedule update replaces the periods and NOTHING else: name, original denom, StartTime and EndTime stay, so
+// when the new periods keep the lengths the record's events keep their absolute times
+func (Keeper).UpdateDenomPeriods
+    let od = old(lv_denoms[baseDenom])
+    let nd = lv_denoms[old(lv_denoms[baseDenom]).BaseDenom]
+    modifies lv_denoms, lv_has
+    ensures found: result == nil ==> old(lv_has[baseDenom]) && nd.LockupPeriods == newPeriods
+    ensures only_periods: result == nil ==> nd.StartTime == od.StartTime && nd.EndTime == od.EndTime && nd.OriginalDenom == od.OriginalDenom
+            && nd.BaseDenom == od.BaseDenom && nd.DisplayDenom == od.DisplayDenom
+    ensures frame: result == nil ==> lv_has == upd(old(lv_has), od.BaseDenom, true)
+            && (forall b string :: b != od.BaseDenom ==> lv_denoms[b] == old(lv_denoms)[b])
+    ensures times_kept: result == nil && len(newPeriods) == len(od.LockupPeriods)
+            && (forall k int :: 0 <= k && k < len(newPeriods) ==> newPeriods[k].Length == od.LockupPeriods[k].Length)
+            ==> T(time_unix(nd.StartTime), nd.LockupPeriods, len(nd.LockupPeriods)) == T(time_unix(od.StartTime), od.LockupPeriods, len(od.LockupPeriods))
+    ensures missing: result != nil ==> lv_denoms == old(lv_denoms) && lv_has == old(lv_has) && !old(lv_has[baseDenom])
+    use return TLenFrame(time_unix(old(lv_denoms[baseDenom]).StartTime), old(lv_denoms[baseDenom]).LockupPeriods, newPeriods, len(newPeriods))
+
 func (Keeper).IsLiquidVestingEnabled
     trusted
     pure
@@ -40,15 +78,11 @@ func (Keeper).GetParams
     pure
     ensures result.MinimumLiquidationAmount >= 0
 
-func (Keeper).UpdateDenomPeriods
-    modifies lv_denoms, lv_has
-    ensures found: result == nil ==> old(lv_has[baseDenom]) && lv_denoms[old(lv_denoms[baseDenom]).BaseDenom].LockupPeriods == newPeriods
-    ensures missing: result != nil ==> lv_denoms == old(lv_denoms) && lv_has == old(lv_has)
-
 // C11: liquidation escrows exactly the requested amount, mints the same amount of the liquid token, stores a
 // schedule whose total is that amount and whose release events keep the absolute times they had on the account,
 // and leaves on the account, period by period, exactly what was not moved.
 func (Keeper).Liquidate
+    split *
     let from = addr_of_bech32(msg.LiquidateFrom)
     let now = time_unix(ctx_blocktime(ctx_unwrap(goCtx)))
     let A = msg.Amount.Amount
@@ -80,18 +114,69 @@ func (Keeper).Liquidate
     unreachable return: return nil, errorsmod.Wrapf(types.ErrLiquidationFailed, "failed to calculate new schedule: %s", err.Error())#2
     call SetAccount requires account: isdyn(acc, *CVA) && dyn(acc, *CVA) == va
             && va.OriginalVesting == csub(oldheap(va.OriginalVesting), cone(d, A)) && va.StartTime == oldheap(va.StartTime)
+    // cuts that connect the local account object to the account store's view (proved where the context is still small)
+    call SetAccount requires view_before: cva_addr(*va) == from && old(acct_iscva[from]) && oldheap(va.OriginalVesting) == old(acct_bva[from].OriginalVesting)
+            && oldheap(va.LockupPeriods) == old(acct_cva[from]).LockupPeriods && oldheap(va.StartTime) == old(acct_cva[from]).StartTime
+    call SendCoinsFromAccountToModule requires stored_is_va: acct_cva[from] == *va && acct_iscva[from] && acct_bva[from] == *va.BaseVestingAccount
+            && (forall a Addr :: a != from ==> acct_iscva[a] == old(acct_iscva)[a] && acct_cva[a] == old(acct_cva)[a] && acct_bva[a] == old(acct_bva)[a])
+    call CreateDenom requires stored_is_va2: acct_cva[from] == *va && acct_bva[from] == *va.BaseVestingAccount
+    // ---- property-level postconditions (agent P): every effect the property demands, as a fact about the final state.
+    // Labels p_*: the same facts are proved as cuts at the call sites (v_*, stored_is_va, total, split, ...); carrying them to the
+    // 15-way merged return state is slow (30 - 140 s per obligation), so props/C11.json skips the prefix p_ and
+    // props/C11-liquidate-post.json checks them with a long timeout.
+    let LD = ret(CreateDenom, 1, 0)
+    let OA = old(acct_cva[addr_of_bech32(msg.LiquidateFrom)])
+    let NA = acct_cva[addr_of_bech32(msg.LiquidateFrom)]
+    let pst = PastCount(time_unix(old(acct_cva[addr_of_bech32(msg.LiquidateFrom)]).StartTime), old(acct_cva[addr_of_bech32(msg.LiquidateFrom)]).LockupPeriods, time_unix(ctx_blocktime(ctx_unwrap(goCtx))))
+    modifies lv_denoms, lv_has, lv_counter, bank_bal, bank_supply, acct_iscva, acct_cva, acct_bva
+    // the stored record of the new liquid token: starts now, ends (in seconds) at its last release event, total = the liquidated amount
+    ensures p_record_stored: result.1 == nil ==> lv_has[LD.BaseDenom] && lv_denoms[LD.BaseDenom] == LD && LD.OriginalDenom == d
+            && result.0.Minted.Denom == LD.BaseDenom && result.0.Minted.Amount == A
+    ensures p_record_times: result.1 == nil ==> time_unix(LD.StartTime) == now
+            && time_unix(LD.EndTime) == T(now, LD.LockupPeriods, len(LD.LockupPeriods)) && time_unix(LD.EndTime) == now + T(0, LD.LockupPeriods, len(LD.LockupPeriods))
+    ensures p_record_total: result.1 == nil ==> Sum(LD.LockupPeriods, len(LD.LockupPeriods))[d] == A
+    // the events of the token keep the absolute times they had on the account
+    ensures p_record_events: result.1 == nil ==> len(LD.LockupPeriods) == len(OA.LockupPeriods) - pst && 0 <= pst && pst < len(OA.LockupPeriods)
+            && T(now, LD.LockupPeriods, 1) == T(time_unix(OA.StartTime), OA.LockupPeriods, pst + 1)
+            && (forall j int :: 1 <= j && j < len(LD.LockupPeriods) ==> LD.LockupPeriods[j].Length == OA.LockupPeriods[pst + j].Length)
+    // the STORED account is left, period by period, with exactly what was not moved
+    call CreateDenom requires same_past: past == pst && oldLock == OA.LockupPeriods
+    // the same facts as `shape` / `split` / `kept` / `first_event` / `later_events` / `total`, in the vocabulary of the account store view
+    call SendCoinsFromAccountToModule requires v_total: acct_bva[from].OriginalVesting == csub(old(acct_bva[from].OriginalVesting), cone(d, A))
+    call CreateDenom requires v_left: NA.StartTime == OA.StartTime && len(NA.LockupPeriods) == len(OA.LockupPeriods)
+    call CreateDenom requires v_kept: forall j int :: 0 <= j && j < pst ==> NA.LockupPeriods[j] == OA.LockupPeriods[j]
+    call CreateDenom requires v_split: forall j int :: pst <= j && j < len(OA.LockupPeriods) ==> cadd(NA.LockupPeriods[j].Amount, periods[j - pst].Amount) == OA.LockupPeriods[j].Amount
+                && cnonneg(NA.LockupPeriods[j].Amount) && cnonneg(periods[j - pst].Amount)
+    call CreateDenom requires v_events: len(periods) == len(OA.LockupPeriods) - pst && 0 <= pst && pst < len(OA.LockupPeriods)
+            && T(now, periods, 1) == T(time_unix(OA.StartTime), OA.LockupPeriods, pst + 1)
+            && (forall j int :: 1 <= j && j < len(periods) ==> periods[j].Length == OA.LockupPeriods[pst + j].Length)
+    ensures p_account_left: result.1 == nil ==> old(acct_iscva[from]) && acct_iscva[from] && NA.StartTime == OA.StartTime
+            && len(NA.LockupPeriods) == len(OA.LockupPeriods)
+    ensures p_account_kept: result.1 == nil ==> (forall j int :: 0 <= j && j < pst ==> NA.LockupPeriods[j] == OA.LockupPeriods[j])
+    ensures p_account_split: result.1 == nil ==> (forall j int :: pst <= j && j < len(OA.LockupPeriods) ==> cadd(NA.LockupPeriods[j].Amount, LD.LockupPeriods[j - pst].Amount) == OA.LockupPeriods[j].Amount
+                && cnonneg(NA.LockupPeriods[j].Amount) && cnonneg(LD.LockupPeriods[j - pst].Amount))
+    ensures p_account_total: result.1 == nil ==> acct_bva[from].OriginalVesting == csub(old(acct_bva[from].OriginalVesting), cone(d, A))
+    ensures p_account_frame: forall a Addr :: a != from ==> acct_iscva[a] == old(acct_iscva)[a] && acct_cva[a] == old(acct_cva)[a] && acct_bva[a] == old(acct_bva)[a]
+    // escrow, mint and hand-over were made and succeeded (their arguments: call-site clauses above)
+    ensures p_bank_calls: result.1 == nil ==> ret(SendCoinsFromAccountToModule, 1, 0) == nil && ret(MintCoins, 1, 0) == nil && ret(SendCoinsFromModuleToAccount, 1, 0) == nil
+    call MintCoins requires minted_denom: amt == cone(LD.BaseDenom, A)
+    call SendCoinsFromModuleToAccount requires handed: senderModule == "liquidvesting" && amt == cone(LD.BaseDenom, A)
+            && recipientAddr == ite(msg.LiquidateTo != msg.LiquidateFrom, addr_of_bech32(msg.LiquidateTo), from)
     allow frame
 
 // C11: redeeming burns exactly the redeemed amount of the liquid token, releases the same amount of the original
 // coin, shrinks the stored schedule by exactly that amount, and hands the released part of the schedule to the
 // recipient account anchored at the liquid token's own start time.
 func (Keeper).Redeem
+    split record_deleted, record_frame, pending_applied, record_shrunk, bank_exact, pending_total
     let A = msg.Amount.Amount
     let ld = msg.Amount.Denom
     let from = addr_of_bech32(msg.RedeemFrom)
     let to = addr_of_bech32(msg.RedeemTo)
     let den = old(lv_denoms[msg.Amount.Denom])
     requires msg: msg != nil && msg.Amount.Amount > 0
+    // app.go wires the x/vesting keeper (a value of type vestingkeeper.Keeper) into the liquid-vesting keeper
+    requires wiring: typeis(k.vestingKeeper, "VKeeper")
     requires stored: forall b string :: lv_has[b] ==> lv_denoms[b].BaseDenom == b
             && (forall k int :: 0 <= k && k < len(lv_denoms[b].LockupPeriods) ==> lv_denoms[b].LockupPeriods[k].Length >= 0 && cnonneg(lv_denoms[b].LockupPeriods[k].Amount))
             && time_unix(lv_denoms[b].EndTime) >= T(time_unix(lv_denoms[b].StartTime), lv_denoms[b].LockupPeriods, len(lv_denoms[b].LockupPeriods))
@@ -103,6 +188,54 @@ func (Keeper).Redeem
     call UpdateDenomPeriods requires shrunk: baseDenom == ld && len(newPeriods) == len(den.LockupPeriods)
             && Sum(newPeriods, len(newPeriods))[den.OriginalDenom] == Sum(den.LockupPeriods, len(den.LockupPeriods))[den.OriginalDenom] - A
             && (forall k int :: 0 <= k && k < len(newPeriods) ==> newPeriods[k].Length == den.LockupPeriods[k].Length)
+    // ---- property-level postconditions (agent P): what a successful Redeem has DONE, not only how its calls look
+    ghostvar u int
+    let now = time_unix(ctx_blocktime(ctx_unwrap(goCtx)))
+    let n = len(old(lv_denoms[msg.Amount.Denom]).LockupPeriods)
+    let S0 = time_unix(old(lv_denoms[msg.Amount.Denom]).StartTime)
+    let DEC = ret(SubtractAmountFromPeriods, 1, 0)
+    let DIFF = ret(SubtractAmountFromPeriods, 1, 1)
+    let pc = PastCount(time_unix(old(lv_denoms[msg.Amount.Denom]).StartTime), old(lv_denoms[msg.Amount.Denom]).LockupPeriods, time_unix(ctx_blocktime(ctx_unwrap(goCtx))))
+    let M = modaddr("liquidvesting")
+    let B1 = bank_move(old(bank_bal), addr_of_bech32(msg.RedeemFrom), modaddr("liquidvesting"), cone(msg.Amount.Denom, msg.Amount.Amount))
+    modifies lv_denoms, lv_has, bank_bal, bank_supply, acct_iscva, acct_cva, acct_bva
+    // the released part DIFF of the token's schedule: same event times, total = the redeemed amount, never more than the token holds per period
+    ensures released_part: result.1 == nil ==> old(lv_has[ld]) && len(DIFF) == n && len(DEC) == n && Sum(DIFF, n) == cone(den.OriginalDenom, A)
+            && (forall j int :: 0 <= j && j < n ==> DIFF[j].Length == den.LockupPeriods[j].Length && DEC[j].Length == den.LockupPeriods[j].Length
+                && cadd(DEC[j].Amount, DIFF[j].Amount) == den.LockupPeriods[j].Amount && cnonneg(DEC[j].Amount) && cnonneg(DIFF[j].Amount))
+    // if any release event of the token is still ahead of block time, some period is pending ...
+    ensures pending_counts: old(lv_has[ld]) && n > 0 && T(S0, den.LockupPeriods, n) > now ==> pc < n
+    // ... and then the recipient's STORED account carries, on top of what it had, exactly the released part at the token's own times
+    ensures pending_applied: result.1 == nil && pc < n ==> acct_iscva[to]
+            && StoredLock(acct_iscva, acct_cva, to, u) == cadd(old(StoredLock(acct_iscva, acct_cva, to, u)), Ended(S0, DIFF, n, u))
+    ensures pending_total: result.1 == nil && pc < n ==>
+            acct_bva[to].OriginalVesting == cadd(ite(old(acct_iscva[to]), old(acct_bva[to].OriginalVesting), coins_zero()), cone(den.OriginalDenom, A))
+    ensures pending_frame: forall a Addr :: a != to ==> acct_iscva[a] == old(acct_iscva)[a] && acct_cva[a] == old(acct_cva)[a] && acct_bva[a] == old(acct_bva)[a]
+    // nothing pending: the coins are released unlocked, no account is touched
+    ensures none_pending_unlocked: result.1 == nil && pc >= n ==> acct_iscva == old(acct_iscva) && acct_cva == old(acct_cva) && acct_bva == old(acct_bva)
+    // the token's stored record: deleted when nothing is left, otherwise the same record (name, start, end) with the decreased periods
+    ensures record_deleted: result.1 == nil && ciszero(Sum(DEC, len(DEC))) ==> !lv_has[ld] && lv_has == upd(old(lv_has), ld, false)
+    ensures record_shrunk: result.1 == nil && !ciszero(Sum(DEC, len(DEC))) ==> lv_has == old(lv_has) && lv_denoms[ld].LockupPeriods == DEC
+            && lv_denoms[ld].StartTime == den.StartTime && lv_denoms[ld].EndTime == den.EndTime && lv_denoms[ld].OriginalDenom == den.OriginalDenom
+            && lv_denoms[ld].BaseDenom == ld && LvWellFormed(lv_denoms[ld])
+            && Sum(lv_denoms[ld].LockupPeriods, n)[den.OriginalDenom] == Sum(den.LockupPeriods, n)[den.OriginalDenom] - A
+    ensures record_frame: forall b string :: b != ld ==> lv_has[b] == old(lv_has)[b] && lv_denoms[b] == old(lv_denoms)[b]
+    // bank: when the holder's bank balance covers the amount (no ERC20 conversion needed) the whole effect is exact:
+    // A liquid tokens leave the holder and are burned, A original coins leave the module's escrow for the recipient
+    ensures bank_exact: result.1 == nil && old(bank_bal[from][ld]) >= A ==> bank_supply == csub(old(bank_supply), cone(ld, A))
+            && bank_bal == bank_move(upd(B1, M, csub(B1[M], cone(ld, A))), M, to, cone(den.OriginalDenom, A))
+    // on every successful path each of the three bank calls was made and succeeded (their arguments: call-site clauses above)
+    ensures bank_calls: result.1 == nil ==> ret(SendCoinsFromAccountToModule, 1, 0) == nil && ret(BurnCoins, 1, 0) == nil && ret(SendCoinsFromModuleToAccount, 1, 0) == nil
+    use return EndedIsPrefix(S0, den.LockupPeriods, n - 1, now)
+    use return SumSplit(den.LockupPeriods, DEC, DIFF, n)
+    use return SumCone(DIFF, n, den.OriginalDenom)
+    use return CountLenFrame(S0, den.LockupPeriods, DIFF, n, now)
+    use return TLenFrame(S0, den.LockupPeriods, DEC, n)
+    call ApplyVestingSchedule use SumCone(final(diffPeriods), len(den.LockupPeriods), den.OriginalDenom)
+    // GetDenom has just found the record, so UpdateDenomPeriods cannot miss it
+    unreachable return: return nil, errorsmod.Wrapf(types.ErrRedeemFailed, "failed to update liquid denom schedule: %s", err.Error())
+    call DeleteDenom requires key: baseDenom == ld
+    call ApplyVestingSchedule requires released_is: lockupPeriods == DIFF && len(lockupPeriods) == n && time_unix(startTime) == S0
     call ApplyVestingSchedule requires recipient: funded == to && merge
     call ApplyVestingSchedule requires anchored: startTime == den.StartTime
     call ApplyVestingSchedule requires amount: coins == cone(den.OriginalDenom, A)
